@@ -114,7 +114,12 @@ func (e *escaper) escape(c context, n parse.Node) context {
 	case *parse.WithNode:
 		return e.escapeBranch(c, &n.BranchNode, "with")
 	}
-	panic("escaping " + n.String() + " is unimplemented")
+	// Nodes the contextual analysis does not know (e.g. {{break}} and {{continue}}) make the
+	// template fail to escape; they must not crash the caller.
+	return context{
+		state: stateError,
+		err:   errorf(ErrEscapeAction, n, 0, "escaping %s is unimplemented", n),
+	}
 }
 
 // escapeAction escapes an action template node.
